@@ -115,6 +115,26 @@ def iter_cases(ctx, conf, init_variants=True, want_random=True, with_reuse=True,
         yield v, params, rng.choice(("tuple", "char", "bytes", "int01")), f"{('generator' if gen else rng.choice(tok.DELIVERY))}|dress={how}{gen}", "dressed_parameters"
         if (c & 255) == 0 and ctx.out_of_time():
             return
+    # tokenizers obtained by copying, generators advanced from alternating threads, sources that re-bind their read()
+    rng = ctx.rng("objects")
+    small_o = plain + (G.param_tuples(4, init=True) if init_variants else [])
+    for i in range(max(240, conf["random"] // 3)):
+        params = small_o[rng.randrange(len(small_o))] if i % 2 else G.random_params(rng, 8, init=None if init_variants else False)
+        v = G.structured_random(rng, params, 30)
+        j = i % 6
+        if j < 3:
+            clone = ("copy", "deepcopy", "pickle")[j] + ("+original-used-first" if i % 4 < 2 else "")
+            v1 = G.structured_random(rng, params, 12)[:12]
+            delivery = f"{rng.choice(tok.DELIVERY)}|clone={clone}|prior={''.join('A' if x else 'a' for x in v1)}"
+            kind = rng.choice(("char", "tuple", "bytes", "falsy_obj")) if j == 2 else rng.choice(tok.KIND_NAMES)
+        elif j == 3:
+            delivery, kind = "generator|threads=alternate", rng.choice(tok.KIND_NAMES)
+        else:
+            delivery, kind = f"{rng.choice(tok.DELIVERY)}|switch={rng.randint(1, max(1, len(v)))}", rng.choice(tok.KIND_NAMES)
+        c += 1
+        yield v, params, kind, delivery, "object_histories"
+        if (c & 255) == 0 and ctx.out_of_time():
+            return
     # a transient fault of the source: one read() call raises, the next one succeeds.  Whether the exception reaches the
     # caller or the tokenizer carries on, every token handed out is bound by the properties
     if with_faults:
